@@ -50,6 +50,65 @@ func (ex *Executable) Validate(root *Root) (errs []error) {
 	for _, f := range ex.Fragments {
 		errs = append(errs, f.Validate(root)...)
 	}
+	errs = append(errs, ex.validateFragCycles()...)
+	return
+}
+
+// validateFragCycles reports fragments that include themselves, directly or
+// through other fragments. Resolving such a fragment can only end at the
+// depth limit, and with two spreads of itself it takes two to the power of
+// that limit steps to get there.
+// https://spec.graphql.org/June2018/#sec-Fragment-spreads-must-not-form-cycles
+func (ex *Executable) validateFragCycles() (errs []error) {
+	names := make([]string, 0, len(ex.Fragments))
+	for name := range ex.Fragments {
+		names = append(names, name)
+	}
+	sort.Strings(names)
+	done := map[*Fragment]bool{}
+	reported := map[*Fragment]bool{}
+	var active []*Fragment
+	var walk func(sels []Selection)
+	visit := func(f *Fragment) {
+		active = append(active, f)
+		walk(f.Sels)
+		active = active[:len(active)-1]
+		done[f] = true
+	}
+	walk = func(sels []Selection) {
+		for _, sel := range sels {
+			switch ts := sel.(type) {
+			case *Field:
+				walk(ts.Sels)
+			case *Inline:
+				walk(ts.Sels)
+			case *FragRef:
+				if ts.Fragment == nil || done[ts.Fragment] {
+					continue
+				}
+				cycle := false
+				for _, a := range active {
+					if a == ts.Fragment {
+						cycle = true
+						break
+					}
+				}
+				if cycle {
+					if !reported[ts.Fragment] {
+						reported[ts.Fragment] = true
+						errs = append(errs, valError(ts.line, ts.col, "fragment %s includes itself", ts.Fragment.Name))
+					}
+					continue
+				}
+				visit(ts.Fragment)
+			}
+		}
+	}
+	for _, name := range names {
+		if f := ex.Fragments[name]; f != nil && !done[f] {
+			visit(f)
+		}
+	}
 	return
 }
 
